@@ -12,7 +12,12 @@ def plans(tier):
         return [
             dict(fmt="fb", eps=2, depth=5,
                  letters=letters(("train",), ("ok",),
-                                 ("-", "A", "AX", "I1", "S1", "F")))
+                                 ("-", "A", "AX", "I1", "S1", "F"))),
+            dict(fmt="fb", eps=3, depth=5,
+                 letters=letters(("train",), ("ok",),
+                                 ("-", "A", "L0", "L1", "L2"))),
+            dict(fmt="npz", eps=2, depth=4,
+                 letters=letters(("train", "test"), ("ok",), ("L1", "L2"))),
         ] + [
             dict(fmt="fb", eps=e, depth=4,
                  letters=letters(two, ("ok",), M) +
@@ -37,6 +42,11 @@ def plans(tier):
         dict(fmt="npz", eps=1, depth=3,
              letters=letters(("train",), ("ok",), ("A", "AX", "I1", "S1",
                                                     "F"))),
+        # nested lists that are prefixes of one another, growing / shrinking
+        dict(fmt="fb", eps=3, depth=4,
+             letters=letters(("train",), ("ok",), ("-", "L0", "L1", "L2"))),
+        dict(fmt="npz", eps=2, depth=3,
+             letters=letters(("train", "test"), ("ok",), ("L1", "L2"))),
         dict(fmt="fb", eps=1, depth=4, letters=letters(("train",), ("ok",), M)),
         dict(fmt="fb", eps=3, depth=5,
              letters=letters(("train",), ("ok",), ("-", "A", "SA", "NB"))),
